@@ -874,8 +874,8 @@ theorem recursive_reference_any_depth (s : NameScope) (r n : String) (g : List R
     (h : eqFold r n = true) :
     ((s.forStep r g).deriveAll steps).denotes n = .previousIteration g := by
   have hi := deriveAll_inherits (s.forStep r g) steps
-  have hr : (s.forStep r g).recName = some r := by simp [NameScope.forStep, NameScope.derive]
-  have hw : (s.forStep r g).working = some g := by simp [NameScope.forStep, NameScope.derive]
+  have hr : (s.forStep r g).recName = some r := by simp [NameScope.forStep, NameScope.forRecQuery, NameScope.derive]
+  have hw : (s.forStep r g).working = some g := by simp [NameScope.forStep, NameScope.forRecQuery, NameScope.derive]
   simp [NameScope.denotes, NameScope.kindOf, hi.1, hi.2.1, hr, hw, tableKind, h]
 
 /-- … and every other name is looked up as if there were no recursion -/
@@ -884,9 +884,9 @@ theorem recursive_other_name_unaffected (s : NameScope) (r n : String) (g : List
     ((s.forStep r g).deriveAll steps).denotes n =
       .object (tableKind none ((s.forStep r g).deriveAll steps).ctes s.temps n) := by
   have hi := deriveAll_inherits (s.forStep r g) steps
-  have hr : (s.forStep r g).recName = some r := by simp [NameScope.forStep, NameScope.derive]
-  have hw : (s.forStep r g).working = some g := by simp [NameScope.forStep, NameScope.derive]
-  have ht : (s.forStep r g).temps = s.temps := by simp [NameScope.forStep, NameScope.derive]
+  have hr : (s.forStep r g).recName = some r := by simp [NameScope.forStep, NameScope.forRecQuery, NameScope.derive]
+  have hw : (s.forStep r g).working = some g := by simp [NameScope.forStep, NameScope.forRecQuery, NameScope.derive]
+  have ht : (s.forStep r g).temps = s.temps := by simp [NameScope.forStep, NameScope.forRecQuery, NameScope.derive]
   have hk : tableKind (some r) ((s.forStep r g).deriveAll steps).ctes s.temps n =
       tableKind none ((s.forStep r g).deriveAll steps).ctes s.temps n := by simp [tableKind, h]
   simp only [NameScope.denotes, NameScope.kindOf, hi.1, hi.2.1, hi.2.2.1, hr, hw, ht, hk]
@@ -899,9 +899,60 @@ theorem anchor_reference_is_outer (s : NameScope) (r n : String) (steps : List S
     ((s.forAnchor r).deriveAll steps).denotes n =
       .object (tableKind none ((s.forAnchor r).deriveAll steps).ctes s.temps n) := by
   have hi := deriveAll_inherits (s.forAnchor r) steps
-  have hw : (s.forAnchor r).working = none := by simp [NameScope.forAnchor, NameScope.derive]
-  have ht : (s.forAnchor r).temps = s.temps := by simp [NameScope.forAnchor, NameScope.derive]
+  have hw : (s.forAnchor r).working = none := by simp [NameScope.forAnchor, NameScope.forRecQuery, NameScope.derive]
+  have ht : (s.forAnchor r).temps = s.temps := by simp [NameScope.forAnchor, NameScope.forRecQuery, NameScope.derive]
   simp [NameScope.denotes, NameScope.kindOf, hi.2.1, hi.2.2.1, hw, ht]
+
+/-! ### which set operators are the recursion -/
+
+theorem derive_clears_root (s : NameScope) (st : ScopeStep) : (s.derive st).root = false := by
+  cases st <;> rfl
+
+theorem deriveAll_root_false (s : NameScope) (steps : List ScopeStep) (h : s.root = false) :
+    (s.deriveAll steps).root = false := by
+  induction steps generalizing s with
+  | nil => simpa [NameScope.deriveAll] using h
+  | cons st rest ih =>
+    have := ih (s.derive st) (derive_clears_root s st)
+    simpa [NameScope.deriveAll] using this
+
+/-- the set operator of the recursive table's own query IS the recursion … -/
+theorem own_set_operator_is_recursion (s : NameScope) (r : String) (w : Option (List Row)) :
+    (s.forRecQuery r w).runsAsRecursion = true := by
+  simp [NameScope.runsAsRecursion, NameScope.forRecQuery]
+
+/-- … and no other: a set operator anywhere inside the recursive member - in a sub-query evaluated per record, a
+    LATERAL sub-select, a derived table, a parenthesised right-hand side, at any depth - is an ordinary UNION /
+    EXCEPT / INTERSECT (evaluated in the scope where it stands: the working view is still visible there,
+    `recursive_reference_any_depth`) -/
+theorem nested_set_operator_is_ordinary (s : NameScope) (r : String) (g : List Row) (steps : List ScopeStep) :
+    ((s.forStep r g).deriveAll steps).runsAsRecursion = false := by
+  have h := deriveAll_root_false (s.forStep r g) steps (derive_clears_root _ _)
+  simp [NameScope.runsAsRecursion, h]
+
+/-- the same inside the anchor member, one scope down or more (a derived table, a sub-query) -/
+theorem anchor_nested_set_operator_is_ordinary (s : NameScope) (r : String) (st : ScopeStep) (steps : List ScopeStep) :
+    ((s.forAnchor r).deriveAll (st :: steps)).runsAsRecursion = false := by
+  have h := deriveAll_root_false ((s.forAnchor r).derive st) steps (derive_clears_root _ _)
+  simp only [NameScope.deriveAll, List.foldl_cons] at h ⊢
+  simp [NameScope.runsAsRecursion, h]
+
+/-- outside a recursive definition no set operator is a recursion -/
+theorem no_recursion_without_recursive_table (s : NameScope) (h : s.recName = none) : s.runsAsRecursion = false := by
+  simp [NameScope.runsAsRecursion, h]
+
+/-- `anchor UNION ALL (m1 <op> m2)`: every generation is the ordinary combination of BOTH members applied to the
+    generation before -/
+theorem two_member_generation (combine : List Row → List Row → List Row) (m1 m2 : List Row → List Row)
+    (anchor : List Row) (k : Nat) :
+    generation (twoMemberStep combine m1 m2) anchor (k + 1) =
+      combine (m1 (generation (twoMemberStep combine m1 m2) anchor k))
+        (m2 (generation (twoMemberStep combine m1 m2) anchor k)) := rfl
+
+/-- with UNION ALL between the members the recursion ends exactly when both members come back empty -/
+theorem two_member_union_all_ends_iff (m1 m2 : List Row → List Row) (g : List Row) :
+    twoMemberStep (· ++ ·) m1 m2 g = [] ↔ m1 g = [] ∧ m2 g = [] := by
+  simp [twoMemberStep]
 
 /-- the decoy witness: a temporary table AND common table expressions called `t`, three scopes deep -/
 example (t : String) (g : List Row) :
@@ -911,7 +962,7 @@ example (t : String) (g : List Row) :
 example (t : String) : (({ recName := none, working := none, ctes := [], temps := [t] } : NameScope).forAnchor t
     |>.deriveAll [.record]).denotes t = .object .temp := by
   rw [anchor_reference_is_outer]
-  simp [NameScope.deriveAll, NameScope.forAnchor, NameScope.derive, tableKind, nameIn, eqFold]
+  simp [NameScope.deriveAll, NameScope.forAnchor, NameScope.forRecQuery, NameScope.derive, tableKind, nameIn, eqFold]
 
 /-- a condition without open references evaluates, with the short-circuits of eval.go, to the total value -/
 theorem lazy_eval_agrees (subs : SubEnv) (lw : Nat) (r : Row) (c : CondE) (h : condPure c = true) :
@@ -1298,6 +1349,10 @@ theorem gen_scope_records :
     Gen.createScopeOrigins.records = .fresh ∧ Gen.createNodeOrigins.records = .inherited ∧
     Gen.createChildOrigins.records = .zero := ⟨rfl, rfl, rfl⟩
 
+/-- no constructor hands the recursion-root mark on (only `selectQuery` sets it, for the recursive table's own query) -/
+theorem gen_scope_root_not_inherited :
+    ∀ o ∈ [Gen.createScopeOrigins, Gen.createNodeOrigins, Gen.createChildOrigins], o.recursionRoot = .zero := by decide
+
 theorem gen_scope_bodies_eq_ref :
     Gen.createScopeBody = Ref.createScopeBody ∧ Gen.createChildBody = Ref.createChildBody ∧
     Gen.createNodeBody = Ref.createNodeBody := ⟨rfl, rfl, rfl⟩
@@ -1305,7 +1360,8 @@ theorem gen_scope_bodies_eq_ref :
 /-- where the working view is set and the steps are counted: `selectSet`, `selectSetForRecursion`, `InlineTableMap.Set` -/
 theorem gen_recursion_bodies_eq_ref :
     Gen.selectSetBody = Ref.selectSetBody ∧ Gen.selectSetForRecursionBody = Ref.selectSetForRecursionBody ∧
-    Gen.inlineTableSetBody = Ref.inlineTableSetBody := ⟨rfl, rfl, rfl⟩
+    Gen.inlineTableSetBody = Ref.inlineTableSetBody ∧ Gen.selectQueryScope = Ref.selectQueryScope ∧
+    Gen.recursionRootWrites = Ref.recursionRootWrites := ⟨rfl, rfl, rfl, rfl, rfl⟩
 
 /-- `View.filter`, `InnerJoin`, `OuterJoin` keep a record exactly when the model's `holds` says so -/
 theorem gen_keep_tests_eq_model (c : Cond) (r : Row) :
